@@ -128,7 +128,13 @@ func C20(e *Env) {
 		sectors := 16 + r.Intn(200)
 		c := c10Case{Key: randBytes(r, 16), Sectors: sectors, Seed: r.Int63()}
 		c.Regions, c.Shape = genRegions(r, sectors)
-		plain := tree.Content(c.Seed, int64(sectors*2048))
+		// one image in three does not end on a sector border (the incomplete last sector is stored as it is)
+		tail := 0
+		if i%3 == 2 {
+			tail = []int{1, 7, 1000, 2047, 1 + r.Intn(2047)}[r.Intn(5)]
+		}
+		c.Tail = tail
+		plain := tree.Content(c.Seed, int64(sectors*2048+tail))
 		if format == "3k3y" {
 			// sector 1 (holding the watermark area start) must be plain: region 0 covers sectors 0..1
 			c.Regions = []refcrypt.Region{{Start: 0, End: 1}, {Start: uint32(4 + r.Intn(4)), End: uint32(sectors/2 + 2)}, {Start: uint32(sectors/2 + 5 + r.Intn(3)), End: uint32(sectors + 10)}}
